@@ -30,6 +30,7 @@ type Config struct {
 	Validate    int // number of completed paths to produce replay vectors for (trace validation)
 	Verbose     bool
 	UnwindFn    map[string]int
+	Redirect    map[string]string // real function (ssa name) -> harness function in the entry's package
 }
 
 type VecEntry struct {
@@ -146,6 +147,12 @@ type Exec struct {
 	initPkg       []*ssa.Package
 	curFrame      *frame
 	curInstr      ssa.Instruction
+	entry         *ssa.Function
+	redirCache    map[string]*ssa.Function
+	pooled        map[*Value]bool
+	pureDepth     int
+	pureFork      int
+	ipdomCache    map[*ssa.Function]map[*ssa.BasicBlock]*ssa.BasicBlock
 }
 
 func (e *Exec) unwindLimit(fn *ssa.Function) int {
@@ -181,7 +188,9 @@ func (e *Exec) setKnown(c *Term, v bool) {
 	}
 }
 
-func (e *Exec) lookupKnown(c *Term) (bool, bool) {
+func (e *Exec) lookupKnown(c *Term) (bool, bool) { return e.lookupKnownD(c, 3) }
+
+func (e *Exec) lookupKnownD(c *Term, depth int) (bool, bool) {
 	neg := false
 	for c.op == OpNot {
 		c = c.args[0]
@@ -190,9 +199,9 @@ func (e *Exec) lookupKnown(c *Term) (bool, bool) {
 	v, ok := e.known[c]
 	if !ok {
 		// cheap structural: and/or of known parts
-		if c.op == OpAnd || c.op == OpOr {
-			a, oka := e.lookupKnown(c.args[0])
-			b, okb := e.lookupKnown(c.args[1])
+		if depth > 0 && (c.op == OpAnd || c.op == OpOr) {
+			a, oka := e.lookupKnownD(c.args[0], depth-1)
+			b, okb := e.lookupKnownD(c.args[1], depth-1)
 			if c.op == OpAnd {
 				if (oka && !a) || (okb && !b) {
 					return neg, true
@@ -234,6 +243,9 @@ func (e *Exec) decide(c *Term) bool {
 	}
 	if v, ok := e.lookupKnown(c); ok {
 		return v
+	}
+	if e.pureDepth > 0 {
+		panic(unsupported("symbolic decision inside ghost (spec/pure) code at " + e.where() + ": " + c.String()))
 	}
 	i := e.ndec
 	e.ndec++
@@ -497,6 +509,9 @@ func (e *Exec) runPath(fn *ssa.Function, prefix []int64) (res *PathResult) {
 	e.uniq = 0
 	e.mapOrderMode = e.cfg.MapOrder
 	e.cur = &PathResult{asserts: map[string]*AssertStat{}}
+	e.entry = fn
+	e.pooled = nil
+	e.pureDepth, e.pureFork = 0, 0
 	res = e.cur
 	e.sol.Push()
 	defer func() {
